@@ -54,3 +54,45 @@ Global Instance iter_list {A} : Iterable (list A) A := fun l => l.
 Definition range_list (r : Z * Z) : list Z :=
   map (fun k => fst r + Z.of_nat k) (seq 0 (Z.to_nat (snd r - fst r))).
 Global Instance iter_range : Iterable (Z * Z) Z := range_list.
+
+Global Instance iter_option {A} : Iterable (option A) A := fun o => match o with Some x => [x] | None => [] end.
+
+(** loops.  [for x in xs { .. }]: the `let mut` variables in scope are the state; `return v` inside the
+    body leaves the loop with [Break v].  [xs.for_each(|x| ..)]: the same without [Break]. *)
+Inductive ctrl (S R : Type) : Type := Next (s : S) | Break (r : R).
+Arguments Next {S R} s.
+Arguments Break {S R} r.
+
+Fixpoint loopM {S A R : Type} (f : S -> A -> rs (ctrl S R)) (l : list A) (s : S) : rs (ctrl S R) :=
+  match l with
+  | [] => Ret (Next s)
+  | x :: l' => bind (f s x) (fun c => match c with Next s' => loopM f l' s' | Break r => Ret (Break r) end)
+  end.
+
+Fixpoint foldM {S A : Type} (f : S -> A -> rs S) (l : list A) (s : S) : rs S :=
+  match l with
+  | [] => Ret s
+  | x :: l' => bind (f s x) (fun s' => foldM f l' s')
+  end.
+
+(** [xs.any(|x| ..)]: stops at the first element for which the closure says true *)
+Fixpoint anyM {A : Type} (f : A -> rs bool) (l : list A) : rs bool :=
+  match l with
+  | [] => Ret false
+  | x :: l' => bind (f x) (fun b => if b then Ret true else anyM f l')
+  end.
+
+(** [xs.flat_map(|x| ..)]: the closure's results (anything iterable) one after the other *)
+Fixpoint flat_mapM {A C B : Type} `{Iterable C B} (f : A -> rs C) (l : list A) : rs (list B) :=
+  match l with
+  | [] => Ret []
+  | x :: l' => bind (f x) (fun c => bind (flat_mapM f l') (fun r => Ret (to_list c ++ r)))
+  end.
+
+(** [a <= b] on [Option<&T>] through T's [partial_cmp]: [None] is below everything *)
+Definition opt_le_with {T : Type} (cmp : T -> T -> rs (option comparison)) (a b : option T) : rs bool :=
+  match a, b with
+  | None, _ => Ret true
+  | Some _, None => Ret false
+  | Some x, Some y => bind (cmp x y) (fun c => Ret match c with Some Lt | Some Eq => true | _ => false end)
+  end.
